@@ -222,14 +222,14 @@ Definition same_global (l : listed_global) (g : global_var) : bool :=
   String.eqb (lg_name l) (g_name g) && forallb (fun w => mem_str w (lg_writers l)) (g_writers g).
 
 Definition benign_globals : list listed_global := [
-  mkListedGlobal "arrayOp" ["Zlisp.InitInfixOps"]
-    "every interpreter construction stores an equal fresh value; never mutated afterwards";
+  mkListedGlobal "arrayOp" ["Zlisp.InitInfixOps (store_always)"]
+    "every interpreter construction stores, unconditionally, a value built from constants and function names only (the translator checks the shape of the store: theorem store_always_history_indep); never mutated afterwards.  A conditional store or a stored value that reads the interpreter (store_if_unset_refuted) changes the writer label and is rejected";
   mkListedGlobal "continuationPrompt" ["Prompter.getExpressionWithLiner (takes its address)"]
     "REPL prompt text (interactive line editor only)";
-  mkListedGlobal "ShellCmd" ["SetShellCmd"] "written only by the Go host API SetShellCmd";
-  mkListedGlobal "Verbose" ["Repl"] "debug switch of the interactive REPL";
-  mkListedGlobal "precounts" ["CountPreHook"; "ReplMain"] "call counters of the command-line flag -countfuncs";
-  mkListedGlobal "postcounts" ["CountPostHook"; "ReplMain"] "call counters of the command-line flag -countfuncs"
+  mkListedGlobal "ShellCmd" ["SetShellCmd (store_conditional_or_dependent)"] "written only by the Go host API SetShellCmd";
+  mkListedGlobal "Verbose" ["Repl (store_conditional_or_dependent)"] "debug switch of the interactive REPL";
+  mkListedGlobal "precounts" ["CountPreHook"; "ReplMain (store_always)"] "call counters of the command-line flag -countfuncs";
+  mkListedGlobal "postcounts" ["CountPostHook"; "ReplMain (store_always)"] "call counters of the command-line flag -countfuncs"
 ].
 
 (* known finding registry-process-global: written by script-reachable builders *)
@@ -241,7 +241,7 @@ Definition known_global_leaks : list listed_global := [
      "SliceOfFunction (calls GetOrCreateSliceType)"; "StructBuilder (calls RegisterUserdef)";
      "Zlisp.ImportDemoData (calls RegisterUserdef)"]
     "registry-process-global";
-  mkListedGlobal "ListRegisteredTypes" ["GoStructRegistryType.register"] "registry-process-global"
+  mkListedGlobal "ListRegisteredTypes" ["GoStructRegistryType.register (store_conditional_or_dependent)"] "registry-process-global"
 ].
 
 Definition global_ok (g : global_var) : bool :=
